@@ -1,0 +1,552 @@
+//! Verification hooks for the searcher: compiled only with `--cfg weechess_verif`.
+//!
+//! Nothing in here changes what the searcher computes. It exposes the private table,
+//! artifact and iteration loop to an external harness, logs one event per interesting
+//! step (table accesses are logged while the table's lock is still held) and can
+//! serialise the workers' shared-table accesses under a seeded schedule.
+
+use super::*;
+use std::cell::{Cell, RefCell};
+use std::sync::atomic::AtomicUsize;
+use std::sync::{Condvar, Mutex};
+
+static TABLE_IDS: AtomicUsize = AtomicUsize::new(0);
+static NODES: AtomicUsize = AtomicUsize::new(0);
+static CANCEL_AT: AtomicUsize = AtomicUsize::new(usize::MAX);
+static NODES_AFTER_CANCEL: AtomicUsize = AtomicUsize::new(0);
+static LOG_TT: AtomicBool = AtomicBool::new(false);
+static LOG_WB: AtomicBool = AtomicBool::new(false);
+static LOG: Mutex<Vec<String>> = Mutex::new(Vec::new());
+
+thread_local! {
+    static TAG: Cell<usize> = Cell::new(usize::MAX);
+    static SEQ: Cell<usize> = Cell::new(0);
+    static BUF: RefCell<Vec<String>> = RefCell::new(Vec::new());
+}
+
+fn emit(body: String) {
+    let tag = TAG.with(|t| t.get());
+    let seq = SEQ.with(|s| {
+        let v = s.get();
+        s.set(v + 1);
+        v
+    });
+    let w = if tag == usize::MAX { -1 } else { tag as i64 };
+    BUF.with(|b| b.borrow_mut().push(format!("{{\"w\":{},\"seq\":{},{}}}", w, seq, body)));
+}
+
+/// Identifies the calling thread in logged events (harness threads; workers get theirs
+/// from `worker_enter`).
+pub fn set_thread_tag(tag: usize) {
+    TAG.with(|t| t.set(tag));
+    SEQ.with(|s| s.set(0));
+}
+
+/// Moves the calling thread's buffered events into the global log.
+pub fn flush() {
+    BUF.with(|b| {
+        let mut b = b.borrow_mut();
+        if !b.is_empty() {
+            LOG.lock().unwrap().append(&mut b);
+        }
+    });
+}
+
+pub fn set_logging(table_events: bool, whitebox_events: bool) {
+    LOG_TT.store(table_events, Ordering::SeqCst);
+    LOG_WB.store(whitebox_events, Ordering::SeqCst);
+}
+
+pub fn take_log() -> Vec<String> {
+    flush();
+    std::mem::take(&mut *LOG.lock().unwrap())
+}
+
+fn kind_char(p: Option<weechess_core::Piece>) -> String {
+    p.map(|p| p.to_string()).unwrap_or_else(|| ".".to_string())
+}
+
+pub fn move_json(m: &Move) -> String {
+    let f: u8 = m.origin().into();
+    let t: u8 = m.destination().into();
+    format!(
+        "{{\"from\":{},\"to\":{},\"piece\":\"{}\",\"color\":\"{}\",\"capture\":\"{}\",\"promo\":\"{}\",\"ep\":{},\"castle\":\"{}\",\"dbl\":{}}}",
+        f + 1,
+        t + 1,
+        m.piece(),
+        m.color(),
+        kind_char(m.capture()),
+        kind_char(m.promotion()),
+        m.is_en_passant(),
+        match m.castle_side() {
+            Some(weechess_core::Side::King) => "K",
+            Some(weechess_core::Side::Queen) => "Q",
+            None => ".",
+        },
+        m.is_double_pawn()
+    )
+}
+
+fn entry_json(e: &TranspositionEntry) -> String {
+    format!(
+        "{{\"kind\":\"{}\",\"mv\":{},\"raw\":{},\"depth\":{},\"max\":{},\"eval\":{}}}",
+        match e.kind {
+            EvaluationKind::Exact => "E",
+            EvaluationKind::UpperBound => "U",
+            EvaluationKind::LowerBound => "L",
+        },
+        move_json(&e.performed_move),
+        e.performed_move.as_raw(),
+        e.depth,
+        e.max_depth,
+        i32::from(e.evaluation)
+    )
+}
+
+// ---- table hooks (called with the table's lock held) ---------------------------------------
+
+pub(super) fn next_table_id() -> usize {
+    TABLE_IDS.fetch_add(1, Ordering::Relaxed)
+}
+
+pub(super) fn tt_find(table: usize, version: u64, hash: Hash, found: Option<&TranspositionEntry>) {
+    if LOG_TT.load(Ordering::Relaxed) {
+        emit(format!(
+            "\"ev\":\"Find\",\"table\":{},\"version\":{},\"key\":\"{:016x}\",\"hit\":{},\"entry\":{}",
+            table,
+            version,
+            hash,
+            found.is_some(),
+            match found {
+                Some(e) => entry_json(e),
+                None => "{}".to_string(),
+            }
+        ));
+    }
+}
+
+pub(super) fn tt_insert(table: usize, version: u64, hash: Hash, entry: &TranspositionEntry, used: usize) {
+    if LOG_TT.load(Ordering::Relaxed) {
+        emit(format!(
+            "\"ev\":\"Insert\",\"table\":{},\"version\":{},\"key\":\"{:016x}\",\"entry\":{},\"used\":{}",
+            table,
+            version,
+            hash,
+            entry_json(entry),
+            used
+        ));
+    }
+}
+
+pub(super) fn tt_entries(table: usize, version: u64, used: usize, max: usize) {
+    if LOG_TT.load(Ordering::Relaxed) {
+        emit(format!(
+            "\"ev\":\"Used\",\"table\":{},\"version\":{},\"used\":{},\"max\":{}",
+            table, version, used, max
+        ));
+    }
+}
+
+// ---- node hook: node-indexed cancellation ---------------------------------------------------
+
+pub(super) fn on_node(token: &CancellationToken) {
+    let n = NODES.fetch_add(1, Ordering::SeqCst);
+    if token.is_cancelled() {
+        NODES_AFTER_CANCEL.fetch_add(1, Ordering::SeqCst);
+    }
+    if n == CANCEL_AT.load(Ordering::SeqCst) {
+        token.cancel();
+    }
+}
+
+// ---- white-box search events ---------------------------------------------------------------
+
+fn wb_on() -> bool {
+    LOG_WB.load(Ordering::Relaxed)
+}
+
+pub(super) fn search_start(previous: &Option<SearchArtifact>, max_depth: usize) {
+    let (fresh, hist, entries) = match previous {
+        None => (true, 0, 0),
+        Some(a) => (false, a.state_history.states.len(), a.transpositions.entries()),
+    };
+    let body = format!(
+        "\"ev\":\"SearchStart\",\"fresh\":{},\"history_len\":{},\"table_entries\":{},\"max_depth\":{}",
+        fresh,
+        hist,
+        entries,
+        if max_depth == usize::MAX { -1 } else { max_depth as i64 }
+    );
+    if std::env::var_os("WEECHESS_VERIF_STDERR").is_some() {
+        eprintln!("verif {{{}}}", body);
+    }
+    if wb_on() {
+        emit(body);
+    }
+}
+
+pub(super) fn iter_start(depth: usize, thread_count: usize) {
+    if wb_on() {
+        emit(format!("\"ev\":\"IterStart\",\"depth\":{},\"workers\":{}", depth, thread_count));
+    }
+}
+
+pub(super) fn wb_enter(
+    hash: Hash,
+    max_depth: usize,
+    current_depth: usize,
+    extension: usize,
+    alpha: eval::Evaluation,
+    beta: eval::Evaluation,
+    prioritized: &Option<Move>,
+) {
+    if wb_on() {
+        emit(format!(
+            "\"ev\":\"Enter\",\"key\":\"{:016x}\",\"max\":{},\"cur\":{},\"ext\":{},\"alpha\":{},\"beta\":{},\"prio\":{}",
+            hash,
+            max_depth,
+            current_depth,
+            extension,
+            i32::from(alpha),
+            i32::from(beta),
+            match prioritized {
+                Some(m) => move_json(m),
+                None => "{}".to_string(),
+            }
+        ));
+    }
+}
+
+pub(super) fn wb_simple(name: &str) {
+    if wb_on() {
+        emit(format!("\"ev\":\"{}\"", name));
+    }
+}
+
+pub(super) fn wb_value(name: &str, value: eval::Evaluation) {
+    if wb_on() {
+        emit(format!("\"ev\":\"{}\",\"value\":{}", name, i32::from(value)));
+    }
+}
+
+pub(super) fn wb_descend(mv: &Move, extension: usize) {
+    if wb_on() {
+        emit(format!("\"ev\":\"Descend\",\"mv\":{},\"extend\":{}", move_json(mv), extension));
+    }
+}
+
+// ---- workers and the seeded scheduler ------------------------------------------------------
+
+struct Sched {
+    rng: ChaCha8Rng,
+    stickiness: f64,
+    active: Vec<usize>,
+    waiting: Vec<usize>,
+    started: bool,
+    degraded: bool,
+    turn: Option<usize>,
+    last: Option<usize>,
+    grants: usize,
+    switches: usize,
+}
+
+static SCHED: Mutex<Option<Sched>> = Mutex::new(None);
+static SCHED_CV: Condvar = Condvar::new();
+
+/// Serialises the workers at their shared-table accesses: only one worker runs between two
+/// accesses, and which one goes next is drawn from `seed`. `stickiness` is the probability of
+/// letting the worker that ran last continue when it is runnable.
+pub fn install_schedule(seed: u64, stickiness: f64) {
+    *SCHED.lock().unwrap() = Some(Sched {
+        rng: ChaCha8Rng::seed_from_u64(seed),
+        stickiness,
+        active: Vec::new(),
+        waiting: Vec::new(),
+        started: false,
+        degraded: false,
+        turn: None,
+        last: None,
+        grants: 0,
+        switches: 0,
+    });
+}
+
+/// Removes the schedule; returns (grants, switches between workers, degraded).
+pub fn clear_schedule() -> (usize, usize, bool) {
+    let s = SCHED.lock().unwrap().take();
+    SCHED_CV.notify_all();
+    s.map(|s| (s.grants, s.switches, s.degraded)).unwrap_or((0, 0, false))
+}
+
+fn maybe_pick(s: &mut Sched) {
+    if s.started && s.turn.is_none() && !s.active.is_empty() && s.waiting.len() == s.active.len() {
+        s.waiting.sort();
+        let pick = match s.last {
+            Some(l) if s.waiting.contains(&l) && s.rng.gen_bool(s.stickiness) => l,
+            _ => s.waiting[s.rng.gen_range(0..s.waiting.len())],
+        };
+        if s.last.is_some() && s.last != Some(pick) {
+            s.switches += 1;
+        }
+        s.grants += 1;
+        s.last = Some(pick);
+        s.turn = Some(pick);
+        SCHED_CV.notify_all();
+    }
+}
+
+pub struct WorkerGuard {
+    id: usize,
+}
+
+pub(super) fn worker_enter(id: usize, count: usize, depth: usize, search_depth: usize) -> WorkerGuard {
+    set_thread_tag(id);
+    if wb_on() {
+        emit(format!(
+            "\"ev\":\"WorkerStart\",\"iter\":{},\"search_depth\":{},\"workers\":{}",
+            depth, search_depth, count
+        ));
+    }
+    let mut guard = SCHED.lock().unwrap();
+    if guard.is_some() {
+        {
+            let s = guard.as_mut().unwrap();
+            s.active.push(id);
+            if s.active.len() >= count {
+                s.started = true;
+                SCHED_CV.notify_all();
+            }
+        }
+        // Barrier: nobody proceeds before all workers of the iteration have registered.
+        let deadline = std::time::Instant::now() + std::time::Duration::from_millis(2000);
+        loop {
+            match guard.as_mut() {
+                None => break,
+                Some(s) if s.started => break,
+                Some(s) => {
+                    if std::time::Instant::now() >= deadline {
+                        s.started = true;
+                        s.degraded = true;
+                        SCHED_CV.notify_all();
+                        break;
+                    }
+                }
+            }
+            guard = SCHED_CV
+                .wait_timeout(guard, std::time::Duration::from_millis(50))
+                .unwrap()
+                .0;
+        }
+    }
+    WorkerGuard { id }
+}
+
+impl Drop for WorkerGuard {
+    fn drop(&mut self) {
+        if wb_on() {
+            emit("\"ev\":\"WorkerEnd\"".to_string());
+        }
+        flush();
+        TAG.with(|t| t.set(usize::MAX));
+        let mut guard = SCHED.lock().unwrap();
+        if let Some(s) = guard.as_mut() {
+            s.active.retain(|x| *x != self.id);
+            s.waiting.retain(|x| *x != self.id);
+            if s.turn == Some(self.id) {
+                s.turn = None;
+            }
+            if s.active.is_empty() {
+                s.started = false;
+                s.last = None;
+            }
+            maybe_pick(s);
+            SCHED_CV.notify_all();
+        }
+    }
+}
+
+/// Called by a worker right before it touches the shared table.
+pub(super) fn sched_point() {
+    let id = TAG.with(|t| t.get());
+    if id == usize::MAX {
+        return;
+    }
+    let mut guard = SCHED.lock().unwrap();
+    match guard.as_mut() {
+        None => return,
+        Some(s) => {
+            if !s.active.contains(&id) {
+                return;
+            }
+            s.waiting.push(id);
+            maybe_pick(s);
+        }
+    }
+    loop {
+        match guard.as_mut() {
+            None => return,
+            Some(s) => {
+                if s.turn == Some(id) {
+                    s.turn = None;
+                    s.waiting.retain(|x| *x != id);
+                    return;
+                }
+            }
+        }
+        guard = SCHED_CV.wait(guard).unwrap();
+    }
+}
+
+// ---- access to the private types -----------------------------------------------------------
+
+pub fn new_artifact(seed: u64, tables: usize, buckets: usize) -> SearchArtifact {
+    let mut rng = RandomNumberGenerator::seed_from_u64(seed);
+    let hasher = ZobristHasher::with(&mut rng);
+    let tables = (0..tables)
+        .map(|_| TranspositionTable::with_bucket_count(buckets))
+        .collect();
+    SearchArtifact {
+        hasher,
+        transpositions: TranspositionTableAccess::with_tables(tables),
+        state_history: StateHistory::new(),
+    }
+}
+
+pub fn record_history(artifact: &mut SearchArtifact, state: &State) {
+    let hash = artifact.hasher.hash(state);
+    artifact.state_history.increment(hash);
+}
+
+pub fn history_len(artifact: &SearchArtifact) -> usize {
+    artifact.state_history.states.len()
+}
+
+pub fn table_entries(artifact: &SearchArtifact) -> usize {
+    artifact.transpositions.entries()
+}
+
+pub fn artifact_hash(artifact: &SearchArtifact, state: &State) -> Hash {
+    artifact.hasher.hash(state)
+}
+
+pub struct SyncOutcome {
+    pub artifact: SearchArtifact,
+    pub nodes: usize,
+    pub nodes_after_cancel: usize,
+}
+
+/// Runs the real `analyze_iterative` on the calling thread. `cancel_at_node` sets the
+/// cancellation flag when the global node counter reaches that value (0 = before the
+/// first node does anything).
+pub fn analyze_sync<F: FnMut(StatusEvent)>(
+    state: State,
+    seed: u64,
+    max_depth: Option<usize>,
+    workers: Option<usize>,
+    artifact: Option<SearchArtifact>,
+    cancel_at_node: Option<usize>,
+    f: &mut F,
+) -> SyncOutcome {
+    NODES.store(0, Ordering::SeqCst);
+    NODES_AFTER_CANCEL.store(0, Ordering::SeqCst);
+    CANCEL_AT.store(cancel_at_node.unwrap_or(usize::MAX), Ordering::SeqCst);
+    let rng = RandomNumberGenerator::seed_from_u64(seed);
+    let (_signal, listen) = CancellationToken::new();
+    let evaluator = eval::Evaluator::default();
+    let artifact = Searcher::analyze_iterative(
+        state, &evaluator, rng, max_depth, listen, artifact, workers, f,
+    );
+    CANCEL_AT.store(usize::MAX, Ordering::SeqCst);
+    SyncOutcome {
+        artifact,
+        nodes: NODES.load(Ordering::SeqCst),
+        nodes_after_cancel: NODES_AFTER_CANCEL.load(Ordering::SeqCst),
+    }
+}
+
+/// The private transposition table behind a value-level interface: values are small integers
+/// mapped onto distinguishable entries.
+pub struct Table {
+    access: TranspositionTableAccess,
+}
+
+fn entry_of(value: u32) -> TranspositionEntry {
+    use weechess_core::{Color, Piece, PieceIndex, Square};
+    let pieces = [
+        Piece::Pawn,
+        Piece::Knight,
+        Piece::Bishop,
+        Piece::Rook,
+        Piece::Queen,
+        Piece::King,
+    ];
+    let v = value as usize;
+    let color = if v % 2 == 0 { Color::White } else { Color::Black };
+    let piece = pieces[(v / 2) % 6];
+    let origin = Square::try_from(((v / 12) % 64) as u8).unwrap();
+    let dest = Square::try_from(((v / 768) % 64) as u8).unwrap();
+    TranspositionEntry {
+        kind: match v % 3 {
+            0 => EvaluationKind::Exact,
+            1 => EvaluationKind::UpperBound,
+            _ => EvaluationKind::LowerBound,
+        },
+        performed_move: Move::by_moving(PieceIndex::new(color, piece), origin, dest),
+        depth: v,
+        max_depth: v + 1,
+        evaluation: eval::Evaluation::from(value as i32),
+    }
+}
+
+impl Table {
+    pub fn new(tables: usize, buckets: usize) -> Self {
+        let tables = (0..tables)
+            .map(|_| TranspositionTable::with_bucket_count(buckets))
+            .collect();
+        Self {
+            access: TranspositionTableAccess::with_tables(tables),
+        }
+    }
+
+    pub fn table_ids(&self) -> Vec<usize> {
+        self.access
+            .tables
+            .iter()
+            .map(|t| t.read().unwrap().verif_id)
+            .collect()
+    }
+
+    pub fn insert(&self, key: Hash, value: u32) {
+        self.access.insert(key, entry_of(value));
+    }
+
+    /// Returns the value and whether every field of the stored entry is the one `insert`
+    /// derives from that value (an entry mixed from two writes would fail this).
+    pub fn find(&self, key: Hash) -> Option<(u32, bool)> {
+        self.access.find(key).map(|e| {
+            let v = e.depth as u32;
+            let x = entry_of(v);
+            let whole = x.kind == e.kind
+                && x.performed_move == e.performed_move
+                && x.max_depth == e.max_depth
+                && x.evaluation == e.evaluation;
+            (v, whole)
+        })
+    }
+
+    pub fn entries(&self) -> usize {
+        self.access.entries()
+    }
+
+    pub fn max_entries(&self) -> usize {
+        self.access.max_entries()
+    }
+
+    pub fn saturation(&self) -> f32 {
+        self.access.saturation()
+    }
+
+    pub fn bucket_size() -> usize {
+        TranspositionBucket::BUCKET_SIZE
+    }
+}
